@@ -53,6 +53,8 @@ pub struct Config {
     pub cross_every: usize,
     /// Use only an evenly spaced subset of the directed family (sanitizer stages).
     pub directed_limit: Option<usize>,
+    /// Sanitizer shards run few programs: do not apply the coverage floor.
+    pub no_floor: bool,
 }
 
 pub struct Outcome {
@@ -111,7 +113,14 @@ pub fn evaluate(prog: &Arc<Program>, prop: &str, cross: bool) -> Evaluated {
     let ex = execute(prog);
     let a = analyze(prog, &ex.trace);
     let cx = Ctx { a: &a, dels: deliveries(&a) };
-    let (violations, cover) = run_monitor(prop, &cx);
+    let (mut violations, cover) = run_monitor(prop, &cx);
+    // A panic inside the workload truncates the execution: whatever the property under check says about the rest of
+    // the tree cannot hold (and correct code never panics in these workloads). C18 reports it itself.
+    if let (Some((op, msg)), true) = (&a.panicked, prop != "C18") {
+        let short: String = msg.chars().take(60).map(|c| if c.is_ascii_digit() { '#' } else { c }).collect();
+        let prop_static: &'static str = ALL_PROPS.iter().copied().find(|p| *p == prop).unwrap_or("C18");
+        violations.push(Violation::new(prop_static, format!("{prop}/panic/{short}"), format!("panic in op {op}: {msg}"), a.end_pos));
+    }
     let mut cross_v = vec![];
     if cross {
         for p in ALL_PROPS {
@@ -405,6 +414,7 @@ pub fn run_check(cfg: &Config) -> Outcome {
     let mut inconclusive = None;
     if !g.harness_errors.is_empty() {
         inconclusive = Some(format!("harness errors: {:?}", g.harness_errors));
+    } else if cfg.no_floor {
     } else if stop.load(Ordering::Relaxed) && g.shapes.len() < floor {
         inconclusive = Some(format!("watchdog fired after {:?} with only {} distinct non-trivial shapes", t0.elapsed(), g.shapes.len()));
     } else if g.shapes.len() < floor.min(total / 4).max(2) {
